@@ -119,6 +119,18 @@ func (s *session) LMTPData(r io.Reader, status smtp.StatusCollector) error {
 	return nil
 }
 
+// FreePort returns a TCP port that is free on 127.0.0.1 right now (other test processes run
+// concurrently on this machine; fixed or random ports collide).
+func FreePort() string {
+	l, err := net.Listen("tcp", "127.0.0.1:0")
+	if err != nil {
+		return "52525"
+	}
+	defer l.Close()
+	_, p, _ := net.SplitHostPort(l.Addr().String())
+	return p
+}
+
 type Server struct {
 	Script *Script
 	srv    *smtp.Server
